@@ -467,7 +467,7 @@ func init() {
 			a = append(a, g.kw("COUNT"), g.pick("1", "100", "0"))
 		}
 		if g.chance(0.3) {
-			a = append(a, g.kw("TYPE"), g.pick("string", "list", "hash", "set", "zset"))
+			a = append(a, g.kw("TYPE"), g.kw(g.pick("string", "list", "hash", "set", "zset")))
 		}
 		return a
 	})
